@@ -180,6 +180,14 @@ class Init(Contract):
             calls = I.st.ghost.get('_base_init_calls', [])
             return VTuple([VStr(n) for n in sorted(calls[0]['kwargs'])]) if len(calls) == 1 else VTuple([VStr('?')])
 
+        def base_passes_kwargs(I):
+            # the constructor's own **kwargs (loop=, asynchronous=, stream_name= ... given by the caller) are handed on
+            calls = I.st.ghost.get('_base_init_calls', [])
+            if len(calls) != 1:
+                return VBool(False)
+            star = calls[0]['star']
+            return VBool(isinstance(star, VStr) and star.s == '__kwargs__')
+
         def is_cb(I, v):
             return VBool(isinstance(v, VFunc) and v.qual.endswith('.cb'))
 
@@ -201,7 +209,7 @@ class Init(Contract):
         if self.method == '_create_task':
             # attribute chains on opaque objects (self.loop.asyncio_loop.create_task) as Herbrand terms
             extra['attr_default'] = lambda I, v, name: VElem(sym.user_func('attr:' + name, 1)(_elem(I, v)))
-        return dict(extra, **{'call_default': call_default, 'call': call_, 'call_m': call_m, 'call_attr': call_attr, 'truthy': truthy, 'recorded': recorded, 'recorded_all': recorded_all, 'implies': implies_, 'base_arg': base_arg, 'base_kw_names': base_kw_names, 'is_cb': is_cb,
+        return dict(extra, **{'call_default': call_default, 'call': call_, 'call_m': call_m, 'call_attr': call_attr, 'truthy': truthy, 'recorded': recorded, 'recorded_all': recorded_all, 'implies': implies_, 'base_arg': base_arg, 'base_kw_names': base_kw_names, 'base_passes_kwargs': base_passes_kwargs, 'is_cb': is_cb,
                 'empty': empty, 'maxlen': maxlen})
 
     def clauses(self):
@@ -236,7 +244,7 @@ def mk(cls_, params_, fields_, props_, kw_=(), extra_=(), uses_loop_=False, vara
 
 ALL = [
     mk('buffer', ['upstream', 'n:int'], {'queue': "call('Queue', maxsize=n)"}, ['C03', 'C02'], uses_loop_=True,
-       extra_=["base_arg(0) == upstream and base_arg('ensure_io_loop') == True"]),
+       extra_=["base_arg(0) == upstream and base_arg('ensure_io_loop') == True", 'base_passes_kwargs()']),
     mk('sliding_window', ['upstream', 'n:int', 'return_partial'], {'n': 'n', 'partial': 'return_partial'}, ['C01'],
        extra_=['empty(self._buffer) and empty(self.metadata_buffer)', 'maxlen(self._buffer) == n and maxlen(self.metadata_buffer) == n',
                'base_arg(0) == upstream']),
@@ -245,16 +253,18 @@ ALL = [
     mk('partition_unique', ['upstream', 'n:int', 'key', 'keep'], {'n': 'n', 'key': 'key', 'keep': 'keep'}, ['C01'],
        extra_=['empty(self._buffer) and empty(self._metadata_buffer)', 'base_arg(0) == upstream']),
     mk('rate_limit', ['upstream', 'interval'], {'interval': "call('convert_interval', interval)", 'next': '0'}, ['C13'],
-       extra_=["base_arg(0) == upstream and base_arg('ensure_io_loop') == True"]),
+       extra_=["base_arg(0) == upstream and base_arg('ensure_io_loop') == True", 'base_passes_kwargs()']),
     mk('delay', ['upstream', 'interval'], {'interval': "call('convert_interval', interval)", 'queue': "call('Queue')"}, ['C02', 'C13'],
-       uses_loop_=True, extra_=["base_arg(0) == upstream and base_arg('ensure_io_loop') == True"]),
+       uses_loop_=True, extra_=["base_arg(0) == upstream and base_arg('ensure_io_loop') == True", 'base_passes_kwargs()']),
     mk('timed_window', ['upstream', 'interval'], {'interval': "call('convert_interval', interval)"}, ['C08'], uses_loop_=True,
-       extra_=['empty(self._buffer) and empty(self.metadata_buffer)', "base_arg(0) == upstream and base_arg('ensure_io_loop') == True"]),
+       extra_=['empty(self._buffer) and empty(self.metadata_buffer)', "base_arg(0) == upstream and base_arg('ensure_io_loop') == True",
+               'base_passes_kwargs()']),
     mk('timed_window_unique', ['upstream', 'interval', 'key', 'keep'],
        {'interval': "call('convert_interval', interval)", 'key': 'key', 'keep': 'keep'}, ['C08'], uses_loop_=True,
-       extra_=['empty(self._buffer) and empty(self._metadata_buffer)', "base_arg(0) == upstream and base_arg('ensure_io_loop') == True"]),
+       extra_=['empty(self._buffer) and empty(self._metadata_buffer)', "base_arg(0) == upstream and base_arg('ensure_io_loop') == True",
+               'base_passes_kwargs()']),
     mk('latest', ['upstream'], {'next_metadata': 'None', '_condition': 'None'}, ['C14'], uses_loop_=True,
-       extra_=['empty(self.next)', "base_arg(0) == upstream and base_arg('ensure_io_loop') == True"]),
+       extra_=['empty(self.next)', "base_arg(0) == upstream and base_arg('ensure_io_loop') == True", 'base_passes_kwargs()']),
     mk('pluck', ['upstream', 'pick'], {'pick': 'pick'}, ['C01'], extra_=['base_arg(0) == upstream']),
     mk('map_async', ['upstream', 'func', 'parallelism:int', 'stop_on_exception'],
        {'func': 'func', 'work_queue': "call('asyncio.Queue', maxsize=parallelism)", 'stop_on_exception': 'stop_on_exception',
